@@ -431,7 +431,10 @@ def _dispatch_sites(ctx: Ctx, model: ExcModel) -> None:
     # HTTP exchange init: unpacking the user's Stream object and serialising state is guarded the same way
     ei = ctx.fn(f"{APPS}:_run_http_exchange_init")
     ecfg = cfg_of(ei.node)
-    uses = [n for n in walk_scope(ei.node) if isinstance(n, ast.Attribute) and isinstance(n.value, ast.Name) and n.value.id == "result" and isinstance(n.ctx, ast.Load)]
+    sp = [p.arg for p in params_of(ei) if p.annotation is not None and ast.unparse(p.annotation).startswith("Stream")]
+    if len(sp) != 1:
+        raise AnalysisError("C07: cannot identify the Stream parameter of _run_http_exchange_init")
+    uses = [n for n in walk_scope(ei.node) if isinstance(n, ast.Attribute) and isinstance(n.value, ast.Name) and n.value.id == sp[0] and isinstance(n.ctx, ast.Load)]
     some(uses, "uses of the user's Stream object in _run_http_exchange_init", ei)
     bad = []
     for u in uses:
@@ -451,12 +454,14 @@ def _dispatch_sites(ctx: Ctx, model: ExcModel) -> None:
 def _signals_500(fi: FunctionInfo, cfg: CFG, scope: ast.AST) -> list[ast.AST]:
     """500 signals inside `scope`: `_current_response_status.set(500)` or an assignment of 500 to a status variable."""
     out: list[ast.AST] = []
+    # names the function returns (alone or as a tuple element): an assignment of 500 to one of them is the status signal
+    returned = {e.id for r in walk_scope(fi.node) if isinstance(r, ast.Return) and r.value is not None for e in (r.value.elts if isinstance(r.value, ast.Tuple) else [r.value]) if isinstance(e, ast.Name)}
     for st in getattr(scope, "body", []):
         for x in walk_scope(st):
             if isinstance(x, ast.Call) and last_attr(x) == "set" and "_current_response_status" in txt(x.func) and x.args and _is_500(fi, cfg, x.args[0], x):
                 out.append(x)
             tg, v = assign_parts(x)
-            if tg and v is not None and isinstance(v, ast.Attribute) and v.attr == "INTERNAL_SERVER_ERROR" and any("status" in txt(t) for t in tg):
+            if tg and v is not None and isinstance(v, ast.Attribute) and v.attr == "INTERNAL_SERVER_ERROR" and any(isinstance(t, ast.Name) and t.id in returned for t in tg):
                 out.append(x)
     return out
 
